@@ -448,3 +448,13 @@ Proof.
   destruct (tagged_threads_safe_again dsts xs srcs mem0 SL DD RA sched) as (NR & SE & _).
   split; assumption.
 Qed.
+
+(* ------------------------------------------------------------------ *)
+(* for the non-vacuity examples: an initial memory given by a list of cells
+   from address 0 on, and a round-robin schedule *)
+Definition mem_list (bs : list N) : mem := fun l => nth (N.to_nat l) bs 0.
+Fixpoint rr (rounds n : nat) : list nat :=
+  match rounds with
+  | O => []
+  | S k => seq 0 n ++ rr k n
+  end.
